@@ -368,6 +368,38 @@ class Gen:
                           "ey %d %d %d %d" % (r.choice([16, 40, 64]), r.choice([16, 48]), r.range(0, 50), r.choice([0, 1, 2, 7]))])
         return "I %s ; " % inst + " ; ".join(ops + [probe])
 
+    def saved_marker_cut_history(self):
+        """a header / decompress / transform call that FAILS INSIDE a saved marker (stream cut in the middle of a COM / APPn /
+        ICC segment, TJPARAM_STOPONWARNING so that the memory source's premature-EOF warning aborts the call from within
+        save_marker), then header + ICC / decompress / transform of another image that carries saved markers"""
+        r = self.r
+        inst = r.choice(["d", "d", "t"])
+        ops = ["set %d 1" % P_STOP]
+        sm = r.choice([2, 2, 4, 3, 1]) if inst == "t" else r.choice([2, 2, 4])
+        if sm != 2 or r.chance(1, 3):
+            ops.append("set %d %d" % (P_SAVEMARKERS, sm))
+        # (stream, index among its COM/APPn segments) of a segment that is saved under this setting
+        icc = [(11, 1), (26, 1), (28, 2)]
+        com = [(24, 0), (28, 0), (29, 0)]
+        app1 = [(24, 1), (28, 1), (29, 1)]
+        if inst == "d":
+            targets = icc
+        else:
+            targets = {1: com, 2: icc + com + app1, 3: com + app1, 4: icc}[sm]
+        for _ in range(r.range(1, 2)):
+            img, seg = r.choice(targets)
+            ref = "%d.S%d.%d" % (img, seg, r.range(0, 2))
+            if inst == "t" and r.chance(2, 3):
+                ops.append("t %s %d %d n" % (ref, r.range(0, 7), r.choice([0, 0, 32])))
+            else:
+                ops.append(r.choice(["h %s", "h %s", "d 8 %s 0", "dy %s"]) % ref)
+        img = r.choice([11, 26, 11, 26, 24])
+        if inst == "t" and r.chance(1, 2):
+            probe = ["t %d %d %d n" % (img, r.range(0, 7), r.choice([0, 0, 32]))]
+        else:
+            probe = r.choice([["h %d" % img, "gi"], ["d 8 %d %d" % (img, self.pf())], ["h %d" % img, "gi"]])
+        return "I %s ; " % inst + " ; ".join(ops + probe)
+
     def raw_marker_history(self):
         r = self.r
         ops = ["d %d 1 0 1 0" % r.choice([22, 28, 28, 29]) for _ in range(r.range(1, 2))]
@@ -549,6 +581,8 @@ def run(ctx):
         hists.append((g.legacy_fail_history(), "legacy-fail"))
     for _ in range(ctx.n(60, 800)):
         hists.append((g.arena_history(), "arena-precision"))
+    for _ in range(ctx.n(60, 600)):
+        hists.append((g.saved_marker_cut_history(), "cut-in-saved-marker"))
     for _ in range(ctx.n(300, 3000)):
         hists.append((g.raw_history(), "raw"))
     return run_hists(ctx, hists, exes, drv, flavours)
